@@ -1,2 +1,186 @@
-(* Props.C11 — placeholder; theorems are being added. *)
-Require Import PyStr Writer.
+(* Props.C11 — lasio's own output is a fixed point of read -> write.
+   Statements only; proofs in Proofs/FixedPointProofs.v, Proofs/WriteIdemProofs.v,
+   Proofs/WriteStateProofs.v.
+
+   Formal reading.  W o x = write (read x) o, R = read; for every x that lasio reads and writes
+   and every o:  R (W o (W o x)) ~ R (W o x)  (header items with numeric values compared
+   numerically, curve data), hence  R (W o^k x) ~ R (W o x)  for all k >= 1.
+
+   What is proved here is the WRITER side, for all oracles unless stated:
+     C11_second_write_same_text_partial / _nowrap
+                          the object left in memory by a write, written again with the same
+                          options, gives byte-identical text and stays the same object
+                          (= C16 idempotence).  `_partial`: with wrap= given it needs WRAP to be
+                          named at most once in ~Version; the hypothesis is necessary
+                          (Props/C16.v, C16_idempotent_refuted_dup_wrap: one more WRAP item —
+                          WRAP:3, WRAP:4, ... — per cycle: a growing suffix).
+     C11_values_fixed     every ~Well/~Parameter value left in memory is a fixed point of
+                          standardize_value; C11_standardize_idem; C11_refreshed_is_text: what
+                          update_start_stop_step stores is a text; C11_refresh_idem_values:
+                          refresh, normalise, refresh, normalise = refresh, normalise.
+     C11_data_tokens_fixed, C11_cell_text_fixed, C11_column_text_cycles
+                          under the ORACLE hypothesis  Hfix : fmtv f (fmtv f t) = fmtv f t
+                          (printing a printed number with the same format gives the same text),
+                          a column printed, read back as the printed tokens and printed again —
+                          any number of times — gives the same texts: no accumulating loss.
+     C11_iter             abstract induction over the number of cycles.  Instance meant:
+                          X := file texts, F x := write (read x) o, P x := x is read and written
+                          without error, R x y := canon (read x) = canon (read y); then
+                          F_fix is the one-step statement C11_fix and the conclusion is the
+                          property for cycle counts 2..k.
+   NOT proved (covered by the correspondence runs of harness/props/c11.py only): C11_fix itself,
+   i.e. the composition through the reader — that the header lines format_item prints are parsed
+   back to the same items (C03 + C04 restricted to writer normal form), that the data lines are
+   parsed back to the printed tokens (C01), and that F respects R.  F15 (a ~Curves unit starting
+   with '.') is the known place where writer normal form is not closed. *)
+From Coq Require Import List NArith ZArith Bool Arith String.
+Import ListNotations.
+Require Import PyStr Regex NumLit Num Tables SectionParse DataRead Read TextWrap Writer
+               WriteStateProofs WriteIdemProofs FixedPointProofs.
+Open Scope string_scope.
+Open Scope list_scope.
+Open Scope N_scope.
+
+Section C11.
+Variable fmtv : list N -> list N -> list N.
+Variable fmt_diff : list N -> list N -> list N.
+Variable fmt_pi : list N -> list N.
+Variable fstr : list N -> list N.
+Variable fzero : list N -> bool.
+Variable numeq : list N -> list N -> bool.
+Notation write := (write fmtv fmt_diff fmt_pi fstr fzero numeq).
+
+Theorem C11_second_write_same_text_partial : forall o m text m',
+  (wo_wrap o <> None ->
+   named_once (s_transforms (l_version (m_las m))) (s2l "WRAP") (s_items (l_version (m_las m)))) ->
+  write o m = WOk text m' -> write o m' = WOk text m'.
+Proof. exact (write_idempotent fmtv fmt_diff fmt_pi fstr fzero numeq). Qed.
+
+Theorem C11_second_write_same_text_nowrap : forall o m text m',
+  wo_wrap o = None -> write o m = WOk text m' -> write o m' = WOk text m'.
+Proof. exact (write_idempotent_nowrap fmtv fmt_diff fmt_pi fstr fzero numeq). Qed.
+
+Theorem C11_standardize_idem : forall v u,
+  standardize fzero (standardize fzero v u) u = standardize fzero v u.
+Proof. exact (standardize_idem fzero). Qed.
+
+(* value_fixed it :  standardize (value it) (unit it) = value it *)
+Theorem C11_values_fixed : forall o m text m',
+  write o m = WOk text m' ->
+  Forall (value_fixed fzero) (s_items (l_well (m_las m'))) /\
+  Forall (value_fixed fzero) (s_items (l_params (m_las m'))).
+Proof. exact (write_values_fixed fmtv fmt_diff fmt_pi fstr fzero numeq). Qed.
+
+Theorem C11_refreshed_is_text : forall c, exists s, fmt_index_cell fmtv c = VStr s.
+Proof. exact (refreshed_is_text fmtv). Qed.
+
+Theorem C11_refreshed_shapes : forall idx,
+  (strt_of fmtv idx = VNone \/ exists s, strt_of fmtv idx = VStr s) /\
+  (stop_of fmtv idx = VNone \/ exists s, stop_of fmtv idx = VStr s) /\
+  (step_of fmtv fmt_diff idx = VNone \/ exists s, step_of fmtv fmt_diff idx = VStr s).
+Proof. exact (fun idx => conj (strt_of_shape fmtv idx) (conj (stop_of_shape fmtv idx) (step_of_shape fmtv fmt_diff idx))). Qed.
+
+(* norm_las: the in-place normalisation of ~Well and ~Parameter values *)
+Theorem C11_refresh_idem_values : forall m l2,
+  refresh_sss fmtv fmt_diff numeq m = Some l2 ->
+  exists l2', refresh_sss fmtv fmt_diff numeq (mkmlas (norm_las fzero l2) (m_index_initial m)) = Some l2' /\
+              norm_las fzero l2' = norm_las fzero l2.
+Proof. exact (refresh_std_idem fmtv fmt_diff numeq fzero). Qed.
+
+Section Tokens.
+Hypothesis Hfix : forall f t, fmtv f (fmtv f t) = fmtv f t.
+
+Theorem C11_data_tokens_fixed : forall f toks, map (fmtv f) (map (fmtv f) toks) = map (fmtv f) toks.
+Proof. exact (tokens_fixed fmtv Hfix). Qed.
+
+(* reprint_cell f c: the cell read back from what `f % c` printed *)
+Theorem C11_cell_text_fixed : forall f nt col,
+  map (cell_text fmtv f nt) (map (reprint_cell fmtv f) col) = map (cell_text fmtv f nt) col.
+Proof. exact (column_text_fixed fmtv Hfix). Qed.
+
+Theorem C11_column_text_cycles : forall f nt col k,
+  map (cell_text fmtv f nt) (Nat.iter k (map (reprint_cell fmtv f)) col) = map (cell_text fmtv f nt) col.
+Proof. exact (column_text_cycles fmtv Hfix). Qed.
+End Tokens.
+
+End C11.
+
+Theorem C11_iter : forall (X : Type) (F : X -> X) (R : X -> X -> Prop) (P : X -> Prop),
+  (forall x, R x x) -> (forall x y z, R x y -> R y z -> R x z) ->
+  (forall x y, R x y -> R (F x) (F y)) ->
+  (forall x, P x -> R (F (F x)) (F x)) ->
+  forall x k, P x -> (1 <= k)%nat -> R (Nat.iter k F x) (F x).
+Proof. exact cycles_fixed. Qed.
+
+Theorem C11_iter_from_fix : forall (X : Type) (F : X -> X) (R : X -> X -> Prop) (P : X -> Prop),
+  (forall x, R x x) -> (forall x y z, R x y -> R y z -> R x z) ->
+  (forall x y, R x y -> R (F x) (F y)) ->
+  (forall x, P x -> R (F (F x)) (F x)) ->
+  forall x k, P x -> (1 <= k)%nat -> R (Nat.iter k F x) (F x).
+Proof. exact cycles_fixed. Qed.
+
+(* ---- non-vacuity ---------------------------------------------------------------------------------- *)
+Definition t_fmtv (f t : list N) : list N := match t with [] => s2l "0.00000" | _ => t end.
+Definition t_fmt_diff (b a : list N) : list N := s2l "1.00000".
+Definition t_fmt_pi (f : list N) : list N := s2l "3.14159".
+Definition t_fstr (t : list N) : list N := t.
+Definition t_fzero (t : list N) : bool := str_eqb t (s2l "0.0").
+Definition t_numeq (a b : list N) : bool := str_eqb a b.
+Definition ex_it (name unit : string) (v : hval) (d : string) : hitem :=
+  mkitem (s2l name) (s2l name) (s2l unit) v (s2l d).
+Definition ex_idx : list cell := [CNum (s2l "1.0"); CNum []; CNum (s2l "3.0")].
+Definition ex_las : las :=
+  mklas (mksect [ex_it "VERS" "" (VFloat (s2l "2.0")) "v"; ex_it "WRAP" "" (VStr (s2l "NO")) "w"] false)
+        (mksect [ex_it "STRT" "M" (VFloat (s2l "1.0")) ""; ex_it "STOP" "M" (VFloat (s2l "3.0")) "";
+                 ex_it "STEP" "M" (VFloat (s2l "1.0")) ""; ex_it "NULL" "" (VFloat (s2l "-999.25")) "";
+                 ex_it "EKB" "M" VNone "elevation"] false)
+        (mksect [ex_it "DEPT" "M" (VStr []) "depth"; ex_it "A" "V" (VStr []) "a"] false)
+        (mksect [ex_it "BHT" "DEGC" (VStr []) "temp"] false)
+        [] [] [ex_idx; [CNum (s2l "5"); CNaN; CNum (s2l "7")]] false.
+Definition ex_m : mlas := mkmlas ex_las (Some ex_idx).
+Definition ex_o (w : option bool) : wopts :=
+  mkwopts None w (s2l "%.5f") [] LAuto (s2l " ") (s2l " ") 79 60 (s2l "~ASCII") false.
+Definition ex_write := write t_fmtv t_fmt_diff t_fmt_pi t_fstr t_fzero t_numeq.
+
+Example C11_ex_Hfix : forall f t, t_fmtv f (t_fmtv f t) = t_fmtv f t.
+Proof. intros f [|c t]; reflexivity. Qed.
+
+(* the second write of the object the first write left behind: same text, same object;
+   empty-with-unit values went to 0 the first time and stay *)
+Example C11_ex_second_write : forall w,
+  match ex_write (ex_o w) ex_m with
+  | WOk t m' => ex_write (ex_o w) m' = WOk t m' /\
+                map i_value (s_items (l_params (m_las m'))) = [VInt 0] /\
+                map i_value (skipn 4 (s_items (l_well (m_las m')))) = [VInt 0]
+  | WErr _ => False
+  end.
+Proof. intros [[|]|]; vm_compute; repeat split; reflexivity. Qed.
+
+Example C11_ex_column :
+  map (cell_text t_fmtv (s2l "%.5f") None) (Nat.iter 3 (map (reprint_cell t_fmtv (s2l "%.5f"))) ex_idx)
+  = [Some (s2l "1.0"); Some (s2l "0.00000"); Some (s2l "3.0")].
+Proof. vm_compute. reflexivity. Qed.
+
+Example C11_ex_iter : Nat.iter 5 (fun n => Nat.min n 3) 10%nat = (fun n => Nat.min n 3) 10%nat.
+Proof.
+  apply (C11_iter nat (fun n => Nat.min n 3) eq (fun _ => True)).
+  - reflexivity.
+  - intros; congruence.
+  - intros; congruence.
+  - intros x _. rewrite <- Nat.min_assoc, Nat.min_id. reflexivity.
+  - exact I.
+  - repeat constructor.
+Qed.
+
+Print Assumptions C11_second_write_same_text_partial.
+Print Assumptions C11_second_write_same_text_nowrap.
+Print Assumptions C11_standardize_idem.
+Print Assumptions C11_values_fixed.
+Print Assumptions C11_refreshed_is_text.
+Print Assumptions C11_refreshed_shapes.
+Print Assumptions C11_refresh_idem_values.
+Print Assumptions C11_data_tokens_fixed.
+Print Assumptions C11_cell_text_fixed.
+Print Assumptions C11_column_text_cycles.
+Print Assumptions C11_iter.
+Print Assumptions C11_iter_from_fix.
